@@ -303,6 +303,10 @@ def corr(run: Run, ctx) -> None:
     # the schema type resolver: annotation text, flags and the ordered add_import requests of the REAL OpenAPISchemaResolver on random
     # IRSchema trees vs Pog.Resolve; oracle = names of the annotation (ast) are builtins or were requested.  The two bare-return hazards
     # proved as counterexamples are function-level (no document was ever shown to reach them): informational.
+    # the dataclass body: field order / defaults / names of the REAL DataclassGenerator vs Pog.Dc; the enum-default classes are F53
+    g.run_corr(run, ctx, "vf.corr.dc", "Dc (DataclassGenerator.generate vs Pog.Dc)", quick=0.25, thorough=2.5)
+    g.run_oracle(run, ctx, g.Informational(findings.Known(run, PROP)), "vf.corr.dc", "dataclass body on the real generator (defaults last, one field per property, defaults evaluate)",
+                 {"dc-enum-default-member-missing": "F53", "dc-enum-default-wrong-member": "F53", "dc-enum-default-int-member-missing": "F53", "dc-str-default-astral": "-F25-cell", "dc-float-default-nonfinite": "-hazard", "dc-default-factory-text-crash": "-hazard"}, quick=0.2, thorough=2.0)
     g.run_corr(run, ctx, "vf.corr.resolve", "Resolve (OpenAPISchemaResolver vs Pog.Resolve)", quick=0.3, thorough=3.0)
     g.run_oracle(run, ctx, g.Informational(findings.Known(run, PROP)), "vf.corr.resolve", "annotation names are imported (real resolver)",
                  {"resolve.named_no_stem_no_import": "-hazard", "resolve.string_enum_no_import": "-hazard"}, quick=0.3, thorough=3.0)
